@@ -28,6 +28,7 @@ def main():
     tier = 'quick'
     props = None
     in_repo = False
+    private = True       # run the checks in a private copy of /verif: evidence/, Gen/ tables and replays/ of /verif stay untouched
     args = sys.argv[2:]
     while args:
         a = args.pop(0)
@@ -37,6 +38,8 @@ def main():
             props = args.pop(0).split(',')
         elif a == '--in-repo':
             in_repo = True
+        elif a == '--shared':
+            private = False
     d = os.path.join(VERIF, 'seeded', name)
     meta = json.load(open(os.path.join(d, 'meta.json')))
     props = props or [meta['property']]
@@ -52,7 +55,14 @@ def main():
             print('cannot create worktree:', r.stdout)
             return 2
     env = dict(os.environ, PYTHONPATH=tree, VERIF_REPO=tree)
-    res = {'name': name, 'tier': tier, 'mode': 'in-repo' if in_repo else 'scratch worktree + VERIF_REPO', 'checks': {}}
+    verif = VERIF
+    if private:
+        verif = '/tmp/seedtest-verif-%s-%d' % (name, os.getpid())
+        r = sh('rsync -a --exclude .git --exclude replays %s/ %s/' % (VERIF, verif))
+        if r.returncode != 0:
+            print('cannot copy /verif:', r.stdout)
+            return 2
+    res = {'name': name, 'tier': tier, 'mode': ('in-repo' if in_repo else 'scratch worktree + VERIF_REPO') + (', checks run in a private copy of /verif' if private else ''), 'checks': {}}
     try:
         r = sh('git -C %s apply %s' % (tree, os.path.join(d, 'patch.diff')))
         if r.returncode != 0:
@@ -64,14 +74,14 @@ def main():
         res['demo_with_change'] = {'exit': r.returncode, 'tail': r.stdout[-400:]}
         for p in props:
             t = time.time()
-            r = sh('cd %s && timeout 3000 /venv/bin/python harness/check.py %s --tier %s' % (VERIF, p, tier), env=env)
+            r = sh('cd %s && timeout 3000 /venv/bin/python harness/check.py %s --tier %s' % (verif, p, tier), env=env)
             lines = [l for l in r.stdout.split('\n') if l.startswith(('VIOLATION', 'KNOWN-FINDING', p + ' tier', 'TOOL-FAILURE'))]
             replay = None
             for l in lines:
                 if l.startswith('VIOLATION') and 'replay=' in l:
                     path = l.split('replay=')[1].split()[0]
                     try:
-                        j = json.load(open(os.path.join(VERIF, path)))
+                        j = json.load(open(os.path.join(verif, path)))
                         replay = {'kind': j.get('kind'), 'clauses': (j.get('clauses') or j.get('broken') or [])[:3], 'case': json.dumps(j.get('case'))[:600]}
                     except Exception as e:  # noqa
                         replay = {'error': str(e)}
@@ -86,9 +96,12 @@ def main():
             sh('git -C %s checkout -- .' % REPO)
         else:
             sh('git -C %s worktree remove --force %s' % (REPO, tree))
+        if private:
+            sh('rm -rf %s' % verif)
     res['repo_clean_after'] = not sh('git -C %s status --porcelain' % REPO).stdout.strip()
-    # the tables were regenerated from the scratch tree: bring them back to /repo's
-    sh('cd %s/harness && /venv/bin/python -c "import tables; tables.regenerate()"' % VERIF)
+    if not private:
+        # the tables were regenerated from the scratch tree: bring them back to /repo's
+        sh('cd %s/harness && /venv/bin/python -c "import tables; tables.regenerate()"' % VERIF)
     with open(os.path.join(d, 'result.json'), 'w') as f:
         json.dump(res, f, indent=1)
     print(json.dumps(res, indent=1))
